@@ -1,1 +1,78 @@
-pub fn main(_args: &[String]) { eprintln!("sock driver not built yet"); std::process::exit(3); }
+//! Socket driver: starts the REAL MemcacheTcpServer (accept loop, Client::handle, connection, codec,
+//! handler, store) on a loopback port and plays a script against it over TCP.
+//! stdin directives:  limit <u32> | timeout <secs> | send <hex> | sleep <ms> | recv <idle-ms> | shutdown_wr | close | conn
+//! stdout events:     recv <hex> | eof | error <text>
+use memcrs::memcache::builder::{MemcacheStoreBuilder, MemcacheStoreConfig};
+use memcrs::memcache::eviction_policy::EvictionPolicy;
+use memcrs::memcache_server::memc_tcp::{MemcacheServerConfig, MemcacheTcpServer};
+use memcrs::server::timer::SystemTimer;
+use std::io::{BufRead, Read, Write};
+use std::net::TcpStream;
+use std::sync::Arc;
+use std::time::Duration;
+
+pub fn main(_args: &[String]) {
+    let stdin = std::io::stdin();
+    let lines: Vec<String> = stdin.lock().lines().map(|l| l.unwrap()).collect();
+    let mut limit: u32 = 1048576;
+    let mut timeout: u32 = 30;
+    for l in &lines {
+        let w: Vec<&str> = l.split_whitespace().collect();
+        if w.len() >= 2 && w[0] == "limit" { limit = w[1].parse().unwrap(); }
+        if w.len() >= 2 && w[0] == "timeout" { timeout = w[1].parse().unwrap(); }
+    }
+    let port: u16 = 20000 + (std::process::id() % 20000) as u16;
+    let addr = format!("127.0.0.1:{}", port);
+    let timer = Arc::new(SystemTimer::new());
+    let store = MemcacheStoreBuilder::from_config(MemcacheStoreConfig::new(u64::MAX, EvictionPolicy::None), timer);
+    let cfg = MemcacheServerConfig::new(timeout, 8, limit, 16);
+    let addr2 = addr.clone();
+    std::thread::spawn(move || {
+        let rt = tokio::runtime::Builder::new_current_thread().enable_all().build().unwrap();
+        rt.block_on(async move {
+            let mut server = MemcacheTcpServer::new(cfg, store);
+            let _ = server.run(addr2).await;
+        });
+    });
+    let mut sock = None;
+    for _ in 0..200 {
+        match TcpStream::connect(&addr) { Ok(s) => { sock = Some(s); break; } Err(_) => std::thread::sleep(Duration::from_millis(10)) }
+    }
+    let mut sock = match sock { Some(s) => s, None => { println!("error cannot connect"); return; } };
+    sock.set_nodelay(true).unwrap();
+    for l in &lines {
+        let w: Vec<&str> = l.split_whitespace().collect();
+        if w.is_empty() { continue; }
+        match w[0] {
+            "send" => {
+                let b = crate::unhex(w.get(1).copied().unwrap_or(""));
+                if let Err(e) = sock.write_all(&b) { println!("error send {}", e); }
+                let _ = sock.flush();
+            }
+            "sleep" => std::thread::sleep(Duration::from_millis(w[1].parse().unwrap())),
+            "recv" => {
+                let idle: u64 = w[1].parse().unwrap();
+                sock.set_read_timeout(Some(Duration::from_millis(idle))).unwrap();
+                let mut all = Vec::new();
+                let mut eof = false;
+                let mut buf = [0u8; 65536];
+                loop {
+                    match sock.read(&mut buf) {
+                        Ok(0) => { eof = true; break; }
+                        Ok(n) => all.extend_from_slice(&buf[..n]),
+                        Err(_) => break,
+                    }
+                }
+                println!("recv {}", crate::hex(&all));
+                if eof { println!("eof"); }
+            }
+            "shutdown_wr" => { let _ = sock.shutdown(std::net::Shutdown::Write); }
+            "conn" => {
+                sock = TcpStream::connect(&addr).unwrap();
+                sock.set_nodelay(true).unwrap();
+                println!("conn");
+            }
+            _ => {}
+        }
+    }
+}
